@@ -12,6 +12,8 @@ from .common import Check, MachineryError, run_tlc, seed, tier
 
 def sector(x_east, y_north):
     """compass sector of a horizontal vector: bearing clockwise from north, rounded to 15 degrees -> 0..23"""
+    if not (math.isfinite(x_east) and math.isfinite(y_north)):
+        return 99, float("nan")            # no direction at all (an empty or non-finite footprint): matches no sector
     b = math.degrees(math.atan2(x_east, y_north)) % 360.0
     return int(round(b / 15.0)) % 24, b
 
@@ -46,7 +48,7 @@ def main():
                 for (nx, ny, xmax, ymax) in grids:
                     speed = float(speeds[int(rng.integers(len(speeds)))])
                     # tower at the domain centre: offsets north-east of the reference corner
-                    ref_lat, ref_lon = 48.0, 9.0
+                    ref_lat, ref_lon = [(48.0, 9.0), (51.48, -0.001), (5.6, -0.0005)][(k + len(obs)) % 3]      # incl. origins just west of Greenwich
                     dlat = math.degrees((ymax / 2) / R)
                     dlon = math.degrees((xmax / 2) / (R * math.cos(math.radians(ref_lat))))
                     # the four quadrants of the lat/lon -> x,y conversion are observed on extra towers (no solve needed)
